@@ -61,7 +61,104 @@ type c13Session struct {
 	live   bool
 }
 
+// c13BackgroundJobs: the server's own continuous mapreduce jobs (no Servers, no
+// Discovery: they concern the local server) follow files, too, and count
+// against the tail limit like any other follow. Tail limit 1, two jobs with a
+// file each, plus a client follow on a third file: never more than one of the
+// three files is open in the server process.
+func c13BackgroundJobs(r *vlib.Run) {
+	key := clientKey()
+	name := "c13jobs"
+	srvDir := r.Dir("srv-" + name)
+	dataDir := filepath.Join(srvDir, "data")
+	os.MkdirAll(dataDir, 0755)
+	realData, _ := filepath.EvalSymlinks(dataDir)
+	line := func(k int) string {
+		return fmt.Sprintf("INFO|1002-071209|1|m.go:1|8|14|7|0.21|471h|MAPREDUCE:JOBS|foo=%d|bar=42\n", k)
+	}
+	files := []string{filepath.Join(realData, "tail-ja.log"), filepath.Join(realData, "tail-jb.log"), filepath.Join(realData, "tail-client.log")}
+	for _, f := range files {
+		os.WriteFile(f, []byte(line(0)), 0644)
+	}
+	job := func(n, file string) map[string]interface{} {
+		return map[string]interface{}{"Name": n, "Enable": true, "AllowFrom": []string{"localhost", "127.0.0.1"}, "Files": file,
+			"Query": "from JOBS select count($line),max(foo) group by $hostname interval 1", "Outfile": filepath.Join(srvDir, n+".csv")}
+	}
+	spec := &vlib.ServerSpec{Name: name, Dir: srvDir, LogLevel: "error",
+		Server: map[string]interface{}{"MaxConnections": 50, "MaxConcurrentCats": 2, "MaxConcurrentTails": 1,
+			"Continuous": []interface{}{job("follow-a", files[0]), job("follow-b", files[1])}},
+		Users: map[string][]string{"tester": {key.AuthKey}}}
+	srv, err := r.StartServer(spec)
+	if err != nil {
+		r.Inconclusive("server-start")
+		return
+	}
+	defer srv.Stop()
+	stop := make(chan struct{})
+	var wg sync.WaitGroup
+	wg.Add(1)
+	go func() { // writers keep all three files growing
+		defer wg.Done()
+		for k := 1; ; k++ {
+			select {
+			case <-stop:
+				return
+			case <-time.After(50 * time.Millisecond):
+			}
+			for _, f := range files {
+				if fd, err := os.OpenFile(f, os.O_APPEND|os.O_WRONLY, 0644); err == nil {
+					fd.WriteString(line(k))
+					fd.Close()
+				}
+			}
+		}
+	}()
+	maxOpen, samples, everOpen := 0, 0, map[string]bool{}
+	var worst []string
+	var client *ssh.Client
+	deadline := time.Now().Add(9 * time.Second)
+	for time.Now().Before(deadline) {
+		if client == nil && samples > 300 {
+			// a client follow on the third file joins in
+			if c, _, _, in, err := trySession(srv.Addr(), "tester", []ssh.AuthMethod{ssh.PublicKeys(key.Signer)}, ""); err == nil {
+				client = c
+				io.WriteString(in, encodeCommand("tail:plain=true "+files[2]+" regex:noop "))
+			}
+		}
+		open := vlib.OpenFilesUnder(srv.D.Pid(), realData)
+		n := 0
+		for _, f := range open {
+			if strings.Contains(f, "/tail-") {
+				n++
+				everOpen[filepath.Base(f)] = true
+			}
+		}
+		if n > maxOpen {
+			maxOpen, worst = n, open
+		}
+		samples++
+		time.Sleep(5 * time.Millisecond)
+	}
+	if client != nil {
+		client.Close()
+	}
+	close(stop)
+	wg.Wait()
+	r.Eval("background-jobs")
+	r.Count("background_job_samples", samples)
+	r.Max("background_job_files_open_at_once_max", maxOpen)
+	if len(everOpen) == 0 {
+		r.Inconclusive("background-jobs-never-opened-a-file")
+		return
+	}
+	if maxOpen > 1 {
+		r.Violation("more-files-read-than-the-limit", map[string]interface{}{"scenario": "two continuous jobs of the server itself and a client follow, MaxConcurrentTails=1",
+			"files_open_at_once": maxOpen, "open_files": worst})
+	}
+}
+
 func c13(r *vlib.Run) int {
+	c13BackgroundJobs(r)
 	min := c13Body(r)
 	if r.Tier == "thorough" || os.Getenv("VERIF_FORCE_RACE") != "" {
 		// secondary monitor: the same workload (reduced) against -race builds
